@@ -526,7 +526,8 @@ MAIN = {
                 thorough=FOREST_T + [mcf("sens_insert_as_coded", {"AsCodedInsert": "TRUE", "Reqs": "{1, 2}"}, expect=True),
                                      mcf("sens_deltree_as_coded", {"AsCodedDelTree": "TRUE", "Reqs": "{1, 2}"}, expect=True)]),
         traces=dict(quick=[dict(profile="forest", jobs=8, count=45)],
-                    thorough=[dict(profile="forest", jobs=16, count=700), dict(profile="options", jobs=8, count=400, seed_off=100)]),
+                    thorough=[dict(profile="forest", jobs=16, count=700), dict(profile="options", jobs=8, count=400, seed_off=100),
+                              dict(family="mem", jobs=4, count=6, seed_off=200), dict(profile="parallel", jobs=4, count=200, seed_off=300, threads=[2, 4, 8, 16])]),
         distinct=distinct_forests,
     ),
     "C04": dict(
